@@ -47,7 +47,7 @@ Proof. unfold p_qlp_precision. solve_consuming. Qed.
 Lemma consuming_qlp_shift : consuming p_qlp_shift.
 Proof. unfold p_qlp_shift. solve_consuming. Qed.
 
-Lemma consuming_dec_subframe p w bps n : consuming (dec_subframe p w bps n).
+Lemma consuming_dec_subframe w bps n : consuming (dec_subframe w bps n).
 Proof.
   unfold dec_subframe.
   apply consuming_bind; [apply consuming_subframe_header|]. intros [ty wasted].
@@ -58,7 +58,7 @@ Proof.
   - intros xs. destruct (wasted =? 0); apply consuming_ret.
 Qed.
 
-Lemma consuming_dec_subframes p h : consuming (dec_subframes p h).
+Lemma consuming_dec_subframes h : consuming (dec_subframes h).
 Proof.
   unfold dec_subframes.
   repeat match goal with |- consuming (if ?c then _ else _) => destruct c end;
@@ -91,8 +91,8 @@ Qed.
 Lemma rd_consumes n s v r : rd n s = Some (v, r) -> length s = (n + length r)%nat.
 Proof. unfold rd. intros H. apply rd_acc_split in H. destruct H as (c & -> & L). rewrite app_length. lia. Qed.
 
-Theorem dec_frame_progress p si chk bytes h chans rest :
-  dec_frame p si chk bytes = Ok (h, chans, rest) -> (length rest + 2 <= length bytes)%nat.
+Theorem dec_frame_progress si chk bytes h chans rest :
+  dec_frame si chk bytes = Ok (h, chans, rest) -> (length rest + 2 <= length bytes)%nat.
 Proof.
   unfold dec_frame. intros H.
   destruct (parse_header_fields si (bits_of_bytes bytes)) as [[h0 s1]| |] eqn:Eh; try discriminate.
@@ -101,7 +101,7 @@ Proof.
   cbn [bind] in H. destruct (negb _); [discriminate|].
   destruct (chk h1); try discriminate. cbn [bind] in H.
   unfold pbind in H.
-  destruct (dec_subframes p h1 s1) as [[ch s2]| |] eqn:Es; try discriminate.
+  destruct (dec_subframes h1 s1) as [[ch s2]| |] eqn:Es; try discriminate.
   apply consuming_dec_subframes in Es.
   destruct (p_align s2) as [[u s3]| |] eqn:Ea; try discriminate. apply consuming_align in Ea.
   unfold p_rd in H. destruct (rd 16 s3) as [[v s4]|] eqn:Er; try discriminate.
@@ -120,49 +120,50 @@ Qed.
 (* ---- the stream loop ---- *)
 Definition is_end_panic (e : stream_end) : bool := match e with EndPanic _ => true | _ => false end.
 
-Lemma read_frame_release_total si cur bytes : is_panic (read_frame Release si cur bytes) = false.
+Lemma read_frame_total si cur bytes : is_panic (read_frame si cur bytes) = false.
 Proof.
   unfold read_frame. destruct (si_total si =? 0).
   - destruct bytes as [|b bytes]; [reflexivity|].
-    apply bind_np; [apply dec_frame_release_total; reflexivity|]. intros [[h ch] rest]. reflexivity.
-  - apply bind_np; [apply arith_u_release|]. intros rem. destruct (rem =? 0)%Z; [reflexivity|].
+    apply bind_np; [apply dec_frame_total; reflexivity|]. intros [[h ch] rest]. reflexivity.
+  - destruct (si_total si <? cur); [reflexivity|]. cbv zeta.
+    destruct (_ =? 0)%Z; [reflexivity|].
     apply bind_np.
-    + apply dec_frame_release_total. intros h. destruct (_ || _); reflexivity.
+    + apply dec_frame_total. intros h. destruct (_ || _); reflexivity.
     + intros [[h ch] rest]. reflexivity.
 Qed.
 
-Lemma read_frame_progress p si cur bytes chans cur' rest :
-  read_frame p si cur bytes = Ok (Some (chans, cur', rest)) -> (length rest < length bytes)%nat.
+Lemma read_frame_progress si cur bytes chans cur' rest :
+  read_frame si cur bytes = Ok (Some (chans, cur', rest)) -> (length rest < length bytes)%nat.
 Proof.
   unfold read_frame. destruct (si_total si =? 0).
   - destruct bytes as [|b bytes]; [discriminate|].
-    destruct (dec_frame p (Some si) _ (b :: bytes)) as [[[h ch] r]| |] eqn:E; try discriminate.
+    destruct (dec_frame (Some si) _ (b :: bytes)) as [[[h ch] r]| |] eqn:E; try discriminate.
     cbn [bind]. intros H. inversion H; subst. apply dec_frame_progress in E. lia.
-  - destruct (arith_u p 64 _) as [rem| |]; try discriminate. cbn [bind].
-    destruct (rem =? 0)%Z; [discriminate|].
-    destruct (dec_frame p (Some si) _ bytes) as [[[h ch] r]| |] eqn:E; try discriminate.
+  - destruct (si_total si <? cur); [discriminate|]. cbv zeta.
+    destruct (_ =? 0)%Z; [discriminate|].
+    destruct (dec_frame (Some si) _ bytes) as [[[h ch] r]| |] eqn:E; try discriminate.
     cbn [bind]. intros H. inversion H; subst. apply dec_frame_progress in E. lia.
 Qed.
 
-Theorem dec_frames_release_total : forall fuel si cur bytes acc,
-  (length bytes < fuel)%nat -> is_end_panic (snd (dec_frames Release fuel si cur bytes acc)) = false.
+Theorem dec_frames_total : forall fuel si cur bytes acc,
+  (length bytes < fuel)%nat -> is_end_panic (snd (dec_frames fuel si cur bytes acc)) = false.
 Proof.
   induction fuel as [|fuel IH]; intros si cur bytes acc Hf; [lia|].
   cbn [dec_frames].
-  pose proof (read_frame_release_total si cur bytes) as Hnp.
-  destruct (read_frame Release si cur bytes) as [[[[chans cur'] rest]|]| |] eqn:E; try reflexivity; [|discriminate].
+  pose proof (read_frame_total si cur bytes) as Hnp.
+  destruct (read_frame si cur bytes) as [[[[chans cur'] rest]|]| |] eqn:E; try reflexivity; [|discriminate].
   apply IH. apply read_frame_progress in E. lia.
 Qed.
 
-(* C04 (Release profile): for every byte string, decoding the whole stream ends in
+(* C04: for every byte string, decoding the whole stream ends in
    end-of-stream or an error — never in a panic, never out of fuel. *)
-Theorem dec_stream_release_total file :
-  match dec_stream Release file with
+Theorem dec_stream_total file :
+  match dec_stream file with
   | Some (_, _, e) => is_end_panic e = false
   | None => True
   end.
 Proof.
   unfold dec_stream. destruct (read_metadata_min file) as [[si audio]|]; [|exact I].
-  pose proof (dec_frames_release_total (S (length audio)) si 0 audio [] ltac:(lia)) as H.
-  destruct (dec_frames Release (S (length audio)) si 0 audio []) as [frames e]. exact H.
+  pose proof (dec_frames_total (S (length audio)) si 0 audio [] ltac:(lia)) as H.
+  destruct (dec_frames (S (length audio)) si 0 audio []) as [frames e]. exact H.
 Qed.
